@@ -54,7 +54,9 @@ def opDur (ts : Bool) (j : Json) : Json :=
   let r : PDur := ⟨getInt j "s", getInt j "n"⟩
   let res := if ts then timestampRead r else durationRead r
   match res with
-  | .ok d => obj ([("class", strJ "ok"), ("secs", intJ d.secs), ("nanos", intJ d.nanos)] ++
+  | .ok d => obj ([("class", strJ "ok"), ("secs", intJ d.secs), ("nanos", intJ d.nanos),
+        ("build_s", intJ (durationBuildWrap d).1), ("build_n", intJ (durationBuildWrap d).2),
+        ("build_checked_ok", Json.bool (durationBuild d).isOk)] ++
       (if ts then [("display_ok", Json.bool (utcDisplay d).isOk), ("debug_ok", Json.bool (utcDebug d).isOk)] else []))
   | r => obj (clsOf r)
 
